@@ -11,6 +11,10 @@ import jsonpath
 from monitors import universe as U
 
 
+async def _collect(awaitable):
+    return [m.obj async for m in await awaitable]
+
+
 def split_compound(text):
     """'$.a | $.b & $.c' -> ['$.a', ('|', '$.b'), ('&', '$.c')] for the fixed compound universe."""
     toks = text.replace("|", " | ").replace("&", " & ").split()
@@ -93,6 +97,26 @@ def run(tier, seed):
                         rec.ok()
                     else:
                         rec.fail(f"form:{k}:{t}|{n}", f"{t!r}: document given as {k} -> {got!r}, as parsed value -> {base!r}", "sys.exit(2)")
+                # the same three forms through the environment-level and module-level entry points
+                makers = {"text": lambda: txt, "StringIO": lambda: io.StringIO(txt), "BytesIO": lambda: io.BytesIO(txt.encode())}
+                calls = {
+                    "env.findall": lambda f: env.findall(t, f, filter_context=fc),
+                    "env.finditer": lambda f: [m.obj for m in env.finditer(t, f, filter_context=fc)],
+                    "env.query": lambda f: list(env.query(t, f, filter_context=fc).values()),
+                    "env.match": lambda f: [m.obj for m in [env.match(t, f, filter_context=fc)] if m is not None] + list(base[1:]),
+                    "env.finditer_async": lambda f: asyncio.run(_collect(env.finditer_async(t, f, filter_context=fc))),
+                }
+                for k, mk in makers.items():
+                    for cn, call in calls.items():
+                        try:
+                            got = call(mk())
+                        except Exception as e:  # noqa: BLE001
+                            got = f"raises {type(e).__name__}: {e}"
+                        if isinstance(got, list) and U.same_values(got, base):
+                            rec.ok()
+                        else:
+                            rec.fail(f"form:{cn}:{k}:{t}|{n}", f"{cn}({t!r}, <document given as {k}>) -> {got!r}, on the parsed value -> {base!r}",
+                                     f"import io, json, jsonpath\nenv = jsonpath.JSONPathEnvironment()\nd = {d!r}\nprint(env.findall({t!r}, d), [m.obj for m in env.finditer({t!r}, io.BytesIO(json.dumps(d).encode()))]); sys.exit(2)")
     for t in U.COMPOUND_QUERIES:
         for d in U.COMPOUND_DOCS + docs[:6]:
             try:
